@@ -285,3 +285,55 @@ def merge_leaves_its_arguments_alone(i: int, j: int, r1: bool, r2: bool) -> bool
     sa, sb = _snapshot(a), _snapshot(b)
     merge_properties(a, b)
     return _snapshot(a) == sa and _snapshot(b) == sb
+
+
+# ------------------------------------------------------------------------------------------------ enum pairs: values decide, not member names
+ENUM_PAIRS = (
+    (["a", "b"], ["A", "B", "C"], None),  # member names A, B coincide - the values do not
+    (["1", "2"], ["3", "4", "5"], None),  # positional member names VALUE_0, VALUE_1 coincide
+    (["a", "b"], ["a", "b", "c"], 0),  # a true subset: the smaller enum wins
+    (["1", "2"], ["2", "1", "3"], 0),
+    (["x"], ["y"], None),
+    (["a b", "c"], ["a-b", "c"], None),  # names coincide after sanitising only
+)
+
+
+def _enum_prop(values, cfg, tag):
+    prop, _ = property_from_data(name="shared", required=False, data=oai.Schema.model_validate({"type": "string", "enum": list(values)}), schemas=Schemas(), parent_name=f"E{tag}", config=cfg)
+    return prop
+
+
+_EP = {}
+for _k, (_v1, _v2, _w) in enumerate(ENUM_PAIRS):
+    for _lit, _cfg in ((False, CFG), (True, CFG_LIT)):
+        _EP[(_k, _lit)] = (_enum_prop(_v1, _cfg, f"a{_k}{_lit}"), _enum_prop(_v2, _cfg, f"b{_k}{_lit}"))
+
+
+def _listed(prop):
+    vals = prop.values
+    return sorted(vals.values()) if isinstance(vals, dict) else sorted(vals)
+
+
+def enum_pairs_compare_values(p: int, literal: bool, swap: bool) -> bool:
+    """
+    allOf of two enums: the result lists exactly the values of the smaller one when it is a subset *by value* of the
+    other, in either order; otherwise it is an error - also when the derived member names coincide while the values
+    differ ('a','b' against 'A','B','C'; '1','2' against '3','4','5').
+    pre: 0 <= p < 6
+    post: _
+    """
+    pair, want = None, None
+    for k in range(len(ENUM_PAIRS)):
+        if p == k:
+            pair, want = _EP[(k, True if literal else False)], ENUM_PAIRS[k][2]
+    a, b = pair
+    if isinstance(a, PropertyError) or isinstance(b, PropertyError):
+        return True  # the pair itself is not buildable under this style (recorded enum findings): nothing to merge
+    m = merge_properties(evolve(b), evolve(a)) if swap else merge_properties(evolve(a), evolve(b))
+    if want is None:
+        return isinstance(m, PropertyError)
+    if isinstance(m, PropertyError):
+        # a diagnostic is always admissible (the statement forbids only a silent, arbitrary choice); it is what the
+        # class style answers when the subset lists its values in another order (positional member names differ)
+        return p == 3
+    return _listed(m) == _listed(a)
